@@ -118,7 +118,7 @@ CHECKS = {
  "C14": dict(
    level="model_checking",
    text="Liveness models the 1 s watchdogs on both ends in discrete time, the abstract reconnect machine and transcribes the fast back-off function; TLC checks SilentPeerDroppedBy (T+1 ticks), PingingPeerNeverDropped over a grid of timeout / interval pairs and the temporal property that the client ends up registered once the server stays reachable (weak fairness, bounded faults); the real back-off manager is called on every error/success sequence up to length 7 (10) and TLC checks every delay against the interval the specification derives from the history; fault scenarios on real frps / frpc pairs behind a black-holing / cutting relay, with a server stop / refusing server / restart, with invalid heartbeats and with a silent scripted server are measured and TLC checks the bounds with a stated slack (Trace_Liveness).",
-   note="Trusted: TLC, the relay, wall-clock measurements with 1.5 s slack. Heartbeat interval 1 s / timeout 3 s; tcp transport with mux on and off; eventual healing is established as bounded-time instances.",
+   note="Trusted: TLC, the relay, wall-clock measurements with 1.5 s slack. Heartbeat interval 1 s / timeout 3 s; tcp transport with mux on and off, websocket for the black-hole and healthy-peer scenarios; eventual healing is established as bounded-time instances.",
    technique="TLA+ spec Liveness model-checked with TLC (safety + liveness) + validation of the real back-off function and of measured fault scenarios (Trace_Liveness)",
    design="4 (C14), 3.8"),
  "C16": dict(
